@@ -18,7 +18,10 @@ prop(
     ],
     rule="each generated document = a pint configuration enabling every configurable check kind (aggregate, annotation, label, cost, "
          "alerts, reject, link, for, keep_firing_for, name, range_query, report; spread over 1-4 rule{} blocks, random severities, 1-2 "
-         "prometheus blocks pointing at the fake server, sometimes a pre-disabled other check, and 0-2 baseline `rule { [match { kind }] enable = [X] }` / `rule { ... disable = [X] }` "
+         "prometheus blocks pointing at the fake server, the command in the context drawn from none/lint/ci/watch, every file's entries in a drawn "
+         "change state (unmodified/added/modified/renamed; a removed file for rule/dependency), check-defining rule blocks with or "
+         "without match{state=[...]} (state any / unmodified ... - under ci a block without state skips unmodified rules), "
+         "sometimes a pre-disabled other check, and 0-2 baseline `rule { [match { kind, state }] enable = [X] }` / `rule { ... disable = [X] }` "
          "blocks with X sometimes also listed in checks{disabled}; their expectation follows docs/configuration.md: a matching enable block "
          "overrides the global disabled list - also what --disabled/--offline add to it -, disable beats enable, an enabled list admits "
          "only the listed name) + 1-5 rule files made of rules written to "
